@@ -304,6 +304,15 @@ def rule_same_text(ctx: Ctx) -> RuleResult:
     return rr
 
 
+def _segment_width(ctx: Ctx):
+    """a click, 'end' and up/down with a preferred column are mapped to an offset through the columns each layout
+    segment declares (calc_line_pos): a segment that declares fewer columns than its text occupies sends the cursor to
+    the character before the one shown in that cell (C03.13, seed C10-r8a)"""
+    from . import c03
+
+    return c03.rule_segment_width(ctx, "C10.21")
+
+
 def _utf8_bound(ctx: Ctx):
     """right / delete step with move_next_char, left / backspace with move_prev_char: the two must cover whole characters"""
     from . import c11
@@ -476,6 +485,7 @@ def run(ctx: Ctx):
         loopfresh.run_loopfresh(p, "C10.12", "C10", floor=1),
         accum.run_accum(p, "C10.9", "C10", floor=3),
         offstep.run_offstep(p, "C10.10", ["urwid.text_layout.calc_line_pos", "urwid.text_layout.calc_pos", "urwid.text_layout.calc_coords"], floor=0),
+        _segment_width(ctx),
     ]
 
 
